@@ -579,7 +579,7 @@ func TestREST(t *testing.T) {
 	for _, c := range creds {
 		kinds = append(kinds, c.Kind)
 	}
-	sec6.Bounds["configs"] = []string{"none", "one user", "two users"}
+	sec6.Bounds["configs"] = []string{"none", "one user", "two users", "none + request tracing", "one user + request tracing"}
 	sec6.Bounds["presented"] = kinds
 	for _, cc := range credCfgs {
 		s := servers[cc.Name]
